@@ -382,6 +382,16 @@ func (cs *Contracts) LoadContractFile(path, pkgPath string, external bool) {
 			}
 			curLoop = &LoopContract{Ord: n}
 			cur.Loops[n] = curLoop
+		case "rangefunc":
+			// invariant of the n-th range-over-func loop of the function (source order);
+			// stored with negative ordinal next to the ordinary loops
+			n, err := strconv.Atoi(rest)
+			if err != nil {
+				fail("bad rangefunc ordinal")
+				continue
+			}
+			curLoop = &LoopContract{Ord: -n}
+			cur.Loops[-n] = curLoop
 		case "invariant", "decreases":
 			if curLoop == nil {
 				fail("invariant outside loop")
